@@ -114,6 +114,65 @@ def gen(rng, i, quick):
     return {"name": f"c11-{i}", "suite": 1, "members": members, "ops": ops}, wops, meta
 
 
+def prop_script(rng, i):
+    """By-reference proposals that a member's own commit cannot use (its own Update, a Remove that
+    targets it) next to one that it can.  The member builds a commit and (a) clears it: it is
+    still in its epoch, without a pending commit; (b) loses the race (cleared or not): the winner's
+    commit, which references those proposals, must be processed."""
+    names = ["A", "B", "C", "D"]
+    members = [{"name": n, "storage": "mem", "retention": 3} for n in names]
+    ops = [{"op": "create", "who": "A"}] + [{"op": "kp", "who": n, "id": "k" + n} for n in names[1:]]
+    ops += [{"op": "commit", "who": "A", "id": "c0", "add": ["k" + n for n in names[1:]]}, {"op": "apply", "who": "A"}]
+    ops += [{"op": "join", "who": n, "welcome_any": "c0"} for n in names[1:]]
+    enc = rng.chance(1, 2)
+    for n in names:
+        ops.append({"op": "opts", "who": n, "path_required": rng.chance(1, 2), "encrypt_controls": enc})
+    live = list(names)
+    checks = []        # (kind, op index, ...)
+    for r in range(3):
+        if len(live) < 3:
+            break
+        x, y = rng.shuffle(live)[:2]
+        kind = rng.choice(["own_update", "remove_me", "both"])
+        pids = []
+        if kind in ("own_update", "both"):
+            pid = f"pu{r}"
+            ops.append({"op": "propose", "who": x, "kind": "update", "id": pid})
+            pids.append((pid, x))
+        if kind in ("remove_me", "both"):
+            pid = f"pr{r}"
+            ops.append({"op": "propose", "who": y, "kind": "remove", "name": x, "id": pid})
+            pids.append((pid, y))
+        if rng.chance(1, 2):
+            z = rng.choice(live)
+            pid = f"pg{r}"
+            ops.append({"op": "propose", "who": z, "kind": "gce", "id": pid, "ext_data": "%02x" % r})
+            pids.append((pid, z))
+        for pid, src in pids:
+            for m in live:
+                if m != src:
+                    ops.append({"op": "deliver", "to": m, "msg": pid})
+        ops.append({"op": "observe", "who": x, "observe": x})
+        before = len(ops) - 1
+        ops.append({"op": "commit", "who": x, "id": f"cx{r}", "observe": x})
+        built = len(ops) - 1
+        if rng.chance(1, 2):
+            ops.append({"op": "clear", "who": x, "observe": x})
+            checks.append(("clear", before, built, len(ops) - 1, x, kind))
+        # the winner: y's commit references every cached proposal
+        ops.append({"op": "commit", "who": y, "id": f"cy{r}"})
+        ops.append({"op": "apply", "who": y})
+        for m in live:
+            if m != y:
+                ops.append({"op": "deliver", "to": m, "msg": f"cy{r}", "observe": m})
+                checks.append(("winner", len(ops) - 1, m, x, kind))
+        if kind in ("remove_me", "both"):
+            live.remove(x)
+        ops.append({"op": "observe", "who": y, "observe": "all"})
+        checks.append(("agree", len(ops) - 1, list(live)))
+    return {"name": f"c11-p{i}", "suite": 1, "members": members, "ops": ops}, checks
+
+
 def main(run, args):
     rng = Rng(run.seed)
     run.assumptions += [
@@ -135,7 +194,7 @@ def main(run, args):
     failing, mism = [], []
     # model evaluation
     coq_out = {}
-    if proofs_ok:
+    if model_ready(proofs_ok):
         nsh = 16
         idxs = list(range(len(items)))
         shards = [idxs[i::nsh] for i in range(nsh) if idxs[i::nsh]]
@@ -170,7 +229,7 @@ def main(run, args):
         e0 = 1
         out = coq_out.get(k)
         if out is None or len(out) != 4 * len(wops):
-            if proofs_ok and out is not None:
+            if model_ready(proofs_ok) and out is not None:
                 broken.append(("correspondence", f"model output length {len(out)} for {len(wops)} operations"))
             continue
         hist_of = {}
@@ -215,6 +274,47 @@ def main(run, args):
                     failing.append({"what": "two members that applied the same commits hold different states", "script": sc["name"], "members": [names[a], names[b]]})
                 if ha[0] != hb[0] and ha[2] == hb[2]:
                     failing.append({"what": "two members on different histories share an epoch authenticator", "script": sc["name"], "members": [names[a], names[b]]})
+    # ---- by-reference proposals the builder's own commit cannot use
+    pitems = [prop_script(rng, i) for i in range(12 if quick else 120)]
+    precs = run_scripts([x[0] for x in pitems], timeout=2400)
+    pstats = {"cleared": 0, "winner_deliveries": 0, "agreements": 0}
+    for (sc, checks), rs in zip(pitems, precs):
+        if any(r.get("crash") for r in rs):
+            failing.append({"what": "history interpreter crashed", "script": sc["name"]})
+            continue
+        byi = {r["i"]: r for r in rs if "i" in r}
+        special = {c[1] for c in checks if c[0] == "winner"}
+        bad = [r for r in rs if r.get("ok") is False and r["i"] not in special]
+        if bad:
+            failing.append({"what": "operation failed in a valid history (proposals a commit cannot use)", "script": sc["name"], "record": bad[0], "op": sc["ops"][bad[0]["i"]]})
+            continue
+        for c in checks:
+            if c[0] == "clear":
+                _, b, bu, cl, x, kind = c
+                # the encoded state may differ (an encrypted commit consumed a handshake key generation,
+                # which is never handed out again); what the property demands is the same epoch state
+                # and no pending commit
+                pick = lambda o: {k: o.get(k) for k in ("epoch", "ctx", "auth", "tree_bytes", "roster")}
+                o0 = (byi.get(b, {}).get("obs") or {}).get(x) or {}
+                o2 = (byi.get(cl, {}).get("obs") or {}).get(x) or {}
+                pstats["cleared"] += 1
+                if not o0.get("group") or pick(o0) != pick(o2) or o2.get("pending"):
+                    failing.append({"what": "building a commit and clearing it did not leave the member in its epoch state without a pending commit", "script": sc["name"], "member": x, "proposals": kind, "ops": sc["ops"][b:cl + 1]})
+            elif c[0] == "winner":
+                _, k, m, x, kind = c
+                r = byi.get(k, {})
+                pstats["winner_deliveries"] += 1
+                if not r.get("ok"):
+                    failing.append({"what": "a member could not process the winning commit" + (" after building (and losing with) its own commit" if m == x else ""), "script": sc["name"], "member": m, "proposals": kind, "error": r.get("err"), "ops": sc["ops"][max(0, k - 8):k + 1]})
+            else:
+                _, k, live = c
+                o = byi.get(k, {}).get("obs") or {}
+                auths = {(o.get(m) or {}).get("auth") for m in live}
+                pstats["agreements"] += 1
+                if len(auths) != 1 or None in auths:
+                    failing.append({"what": "members differ after the winning commit", "script": sc["name"], "members": live})
+    run.cov["unusable_proposal_scenarios"] = pstats
+    run.obligation("a commit that is built (and cleared) leaves the member in its epoch and never keeps it from processing the winner (by-reference proposals the builder cannot use)", not failing and pstats["cleared"] > 0 and pstats["winner_deliveries"] > 0)
     run.obligation("correspondence: result, epoch and pending flag of every operation of every race = life-cycle model", not mism and not failing and n_cmp > 0)
     run.cov.update({
         "evaluations": n_cmp,
